@@ -816,7 +816,8 @@ static bool is_circle(const Array<Vec2> point_array, double tolerance, Vec2& cen
         res_b += ab.y * r;
     }
     double den = coef_a * coef_b - coef_m * coef_m;
-    if (fabs(den) < GDSTK_PARALLEL_EPS) return false;
+    // Relative test: the absolute value depends on the unit of length
+    if (fabs(den) <= GDSTK_PARALLEL_EPS * coef_a * coef_b) return false;
     center.x = ref.x + (coef_b * res_a - coef_m * res_b) / den;
     center.y = ref.y + (coef_a * res_b - coef_m * res_a) / den;
     // printf("Center: (%lf, %lf)\n", center.x, center.y);
